@@ -127,7 +127,7 @@ func genC13(t *rapid.T) C13Case {
 		Failing:  rapid.IntRange(0, 3).Draw(t, "failing") == 0,
 		Custom:   true, Stateful: true, Consts: true, Aliases: true, StrBias: true,
 	}}
-	c := C13Case{Infix: rapid.IntRange(0, 3).Draw(t, "infix") == 0, Events: pickW(t, "events", 2, 1, 1)}
+	c := C13Case{Infix: rapid.IntRange(0, 3).Draw(t, "infix") == 0, Events: pickW(t, "events", 4, 2, 2, 1)}
 	var tree *m.Node
 	if c.Infix {
 		tree = g.Program(rootTy(t))
